@@ -384,7 +384,11 @@ func NewTimer[T any](ch chan T, d int64, mk func(now int64) T) *Timer {
 	return t
 }
 
+// TimerArms lists the durations every timer was armed with in this execution (NewTimer and Reset), in order.
+func TimerArms() []int64 { return append([]int64(nil), E.timerArms...) }
+
 func (t *Timer) Reset(d int64) bool {
+	E.timerArms = append(E.timerArms, d)
 	was := t.tm.armed
 	if d < 0 {
 		d = 0
